@@ -130,3 +130,50 @@ func VerifC04_Ics20Allowance() {
 	}
 	zz.Reach("end")
 }
+
+
+// VerifC04_Ics20Approve: the grant stored by approve() is exactly what the signer approved - port, channel, spend limit and the
+// receiver allow list of every allocation - and a spend by the grantee to a receiver outside the allow list is refused.
+func VerifC04_Ics20Approve() {
+	env := zz.NewEnv([]string{"ibc"}, nil)
+	ctx := env.Ctx.WithBlockTime(time.Unix(1700000000, 0))
+	ics.grants, ics.msgs, ics.fail = map[string]*icsGrant{}, nil, false
+	p := Precompile{Precompile: cmn.Precompile{ApprovalExpiration: time.Hour}, stakingKeeper: stakingkeeper.Keeper{Keeper: &sdkstakingkeeper.Keeper{}}}
+	bank := &icsBank{bal: map[common.Address]sdkmath.Int{}, supply: sdk.ZeroInt()}
+	ics.bank = bank
+	bank.bal[icsOrigin] = sdkmath.NewIntFromBigInt(new(big.Int).Lsh(big.NewInt(1), 200))
+	db := statedb.New(ctx, bank, statedb.NewEmptyTxConfig(common.Hash{}))
+	limit := zz.AnyAmount("limit", 100)
+	zz.Assume(limit.IsPositive())
+	channel := []string{"channel-0", "channel-1", "channel-9"}[zz.Choose("channel", 3)]
+	var allow []string
+	restricted := zz.AnyBool("restrictedToReceiver")
+	if restricted {
+		allow = []string{icsReceiver}
+	}
+	alloc := cmn.ICS20Allocation{SourcePort: "transfer", SourceChannel: channel, SpendLimit: []cmn.Coin{{Denom: "aISLM", Amount: limit.BigInt()}}, AllowList: allow}
+	m := &abi.Method{Name: "approve", Inputs: make(abi.Arguments, 2)}
+	_, err := p.Approve(ctx, icsOrigin, db, m, []interface{}{icsContract, []cmn.ICS20Allocation{alloc}})
+	if err != nil {
+		zz.Assert(channel == "channel-9", "only an allocation for a channel that does not exist is refused")
+		zz.Reach("refused")
+		zz.Reach("end")
+		return
+	}
+	zz.Reach("approved")
+	g, ok := ics.grants[icsKey(icsContract.Bytes(), icsOrigin.Bytes())]
+	zz.Assert(ok, "the grant is stored for (grantee = the approved contract, granter = the signer)")
+	ta, isT := g.auth.(*transfertypes.TransferAuthorization)
+	zz.Assert(isT && len(ta.Allocations) == 1, "one allocation is stored")
+	a := ta.Allocations[0]
+	zz.Assert(a.SourcePort == "transfer" && a.SourceChannel == channel && a.SpendLimit.AmountOf("aISLM").Equal(limit), "port, channel and spend limit are those approved")
+	zz.Assert(len(a.AllowList) == len(allow) && (len(allow) == 0 || a.AllowList[0] == icsReceiver), "the receiver allow list is the one approved")
+	zz.Assert(g.exp != nil && g.exp.Equal(ctx.BlockTime().Add(time.Hour)), "the grant expires after the approval period")
+	// a spend by the grantee to somebody else
+	amt := zz.AnyAmount("amount", 100)
+	zz.Assume(amt.IsPositive() && amt.LTE(limit))
+	args := []interface{}{"transfer", channel, "aISLM", amt.BigInt(), icsOrigin, "cosmos1someoneelse", clienttypes.NewHeight(1, 100), uint64(0), "memo"}
+	_, terr := p.Transfer(ctx, icsOrigin, &vm.Contract{CallerAddress: icsContract}, db, icsMethod, args)
+	zz.Assert((terr != nil) == restricted, "a transfer to a receiver outside the approved allow list is refused (and allowed when no list was given)")
+	zz.Reach("end")
+}
